@@ -247,6 +247,10 @@ class Unsupported(Exception):
     pass
 
 
+class TimeBudget(Exception):
+    """the wall-clock budget of one exploration is used up (reported as bounded, never as success)"""
+
+
 class VMError(Exception):
     """A runtime error of the VM (quiver_core::Error).  kind = variant name."""
 
@@ -360,6 +364,7 @@ class Machine:
         self.on_outcome = None
         self.trace_hook = None
         self.model = None
+        self.deadline = None      # absolute time.time() after which exploration stops (TimeBudget)
         # the alternatives produced by Equal and by the builtin models are exhaustive (their
         # conditions cover every case), which lets the last one be taken without a query when all
         # the others were refuted
@@ -538,6 +543,8 @@ class Machine:
                 continue
             st.steps += 1
             self.stats.instructions += 1
+            if self.deadline is not None and (self.stats.instructions & 255) == 0 and time.time() > self.deadline:
+                raise TimeBudget()
             if st.steps > self.max_steps:
                 self._finish("bound", st, detail="step bound %d" % self.max_steps)
                 return
